@@ -32,6 +32,10 @@ pub enum Action {
     CutAfter(usize),
     /// Close the connection without any response.
     Drop,
+    /// 206 without a Content-Length (the body is delimited by the close of the connection):
+    /// the requested bytes, then junk without end — 16 KiB every few milliseconds until the
+    /// client goes away (or 90 s have passed).
+    Endless,
     /// Send these bytes as they are (not an HTTP response) and close.
     Raw(Vec<u8>),
     /// Arbitrary response: status, declared Content-Length (None = actual), body.
@@ -315,6 +319,29 @@ fn serve_conn(stream: TcpStream, conn: u64, core: Arc<Core>) {
             }
             Action::Drop => {
                 desc = "drop".to_string();
+                close = true;
+            }
+            Action::Endless => {
+                desc = "endless".to_string();
+                let mut h = String::from("HTTP/1.1 206 Partial Content\r\nConnection: close\r\n");
+                if let Some((a, b)) = req.range {
+                    h.push_str(&format!("Content-Range: bytes {}-{}/*\r\n", a, b));
+                }
+                h.push_str("Content-Type: application/octet-stream\r\n\r\n");
+                let _ = out.write_all(h.as_bytes());
+                let _ = out.write_all(&correct);
+                let _ = out.flush();
+                sent = correct.len();
+                let junk = vec![0x5au8; 16 << 10];
+                let t0 = std::time::Instant::now();
+                let _ = out.set_write_timeout(Some(Duration::from_secs(5)));
+                while t0.elapsed() < Duration::from_secs(90) {
+                    if out.write_all(&junk).is_err() {
+                        break;
+                    }
+                    sent += junk.len();
+                    std::thread::sleep(Duration::from_millis(3));
+                }
                 close = true;
             }
             Action::Raw(bytes) => {
